@@ -531,7 +531,7 @@ def load_known():
 
 def report(ctx, replay, key, found_input, text, site=None):
     for k in load_known():
-        if k.get('property') == ctx.prop and k.get('status') == 'known' and \
+        if ctx.prop in [k.get('property')] + list(k.get('also', [])) and k.get('status') == 'known' and \
                 (k.get('key') == key or (site and k.get('site') == site)):
             line = 'KNOWN-FINDING: property=%s %s' % (ctx.prop, k.get('what', text))
             if line not in ctx.known:
@@ -597,8 +597,11 @@ def stage_b_stream(ctx, stream, stage_a_broken):
         ofail = oracle_failures(stream, ops, impl) if r['status'] in ('ok', 'diff') else []
         if r['status'] == 'ok' and not ofail:
             continue
+        nviol = len(ctx.violations)
         handle_failure(ctx, stream, np, ops, r, ofail, label)
-        break  # one failure per stream is enough
+        if len(ctx.violations) == nviol:
+            continue  # reported as a known finding only: the remaining batches / rank counts are still checked
+        break  # one violation per stream is enough
     cov['distinct_nontrivial'] = len(distinct)
     ctx.cov['evaluations'] += cov['evaluations']
     ctx.cov['distinct_nontrivial'] += cov['distinct_nontrivial']
@@ -611,10 +614,15 @@ def handle_failure(ctx, stream, np, ops, r, ofail, label):
     site = getattr(stream, 'site', None)
     log('[%s] stream %s %s: %s at op %s' % (ctx.prop, stream.name, label, status, r['first_diff']))
 
+    # failures tagged with a known-finding site (third tuple element) must never mask an untagged one: when the
+    # original batch has an untagged oracle failure the shrinker has to keep an untagged failure
+    has_untagged = any(len(f) < 3 for f in (ofail or []))
+
     def fails(cand):
         rr = compare(ctx, stream, cand, np)
         if status == 'ok':  # oracle-only failure
-            return bool(oracle_failures(stream, cand, rr['impl']))
+            ofs = oracle_failures(stream, cand, rr['impl'])
+            return any(len(f) < 3 for f in ofs) if has_untagged else bool(ofs)
         return rr['status'] == status
 
     small = shrink(ctx, stream, ops, np, fails) if status != 'model-crash' else ops
@@ -632,7 +640,9 @@ def handle_failure(ctx, stream, np, ops, r, ofail, label):
             'oracle_failures': of[:10], 'harness': getattr(stream.harness, '__name__', stream.harness),
             'driver': stream.driver}
     # an oracle failure may carry a third element: a stable `site` id used by known_findings.json
-    site = of[0][2] if of and len(of[0]) > 2 else getattr(stream, 'site', None)
+    # (only when EVERY failure of the minimised case carries the same site is it reported as that known finding)
+    of = sorted(of, key=lambda f: len(f) > 2)   # untagged first: the verdict quotes of[0]
+    site = of[0][2] if of and all(len(f) > 2 and f[2] == of[0][2] for f in of) else getattr(stream, 'site', None)
     if rr['status'] == 'impl-crash':
         # a crash / sanitizer abort / timeout of the real code on a generated input is a concrete failing input
         info['verdict'] = 'implementation aborted (rc=%s) on this input' % rr['rc']
